@@ -17,7 +17,7 @@ import numpy
 
 from hypothesis import strategies as st
 
-from vlib.core import Soft, Sub
+from vlib.core import HarnessError, Soft, Sub
 
 PROPERTY_ID = "C07"
 LEVEL = "exploration"
@@ -567,10 +567,12 @@ def exec_lf(case) -> Soft:
                 okv, v = s.call("get_motif_probs", reported_mprobs, lf)
                 if okv and not all(close(a_, b_, 1e-9) for a_, b_ in zip(v, exp.mprobs)):
                     s.fail(POISON_SIG if poisoned else tag + "/reported-vs-intended", f"motif probs reported {v}, intended {exp.mprobs} -- {what}")
+                    exp.resync(lf, s)
             if exp.bprobs is not None:
                 okv, v = s.call("get_param_value", lambda: [float(x) for x in lf.get_param_value("bprobs")])
                 if okv and not all(close(a_, b_, 1e-9) for a_, b_ in zip(v, exp.bprobs)):
                     s.fail(POISON_SIG if poisoned else tag + "/reported-vs-intended", f"bprobs reported {v}, intended {exp.bprobs} -- {what}")
+                    exp.resync(lf, s)
         ok, got = s.call(tag + "/lnL", lambda: float(lf.lnL), allowed=gs_ok)
         if not ok:
             return
@@ -625,9 +627,8 @@ def exec_lf(case) -> Soft:
         if op in ("set_param", "set_mprobs", "set_alignment"):
             tag = {"set_param": "set_param_rule", "set_mprobs": "set_motif_probs", "set_alignment": "set_alignment"}[op]
             ok, _ = s.call(tag, run, st_, allowed=_infeasible() if op == "set_param" else gs_ok)
-            accepted = record(st_)
-            if not accepted:
-                s.fail(tag + "/crossed-bounds-accepted", f"{what}: the harness record says the bounds cross")
+            if not record(st_):
+                raise HarnessError(f"generated rule has crossed bounds: {what}")
             if not ok:
                 rejected(tag, mprobs_unknown=op == "set_mprobs")
             else:
@@ -743,9 +744,9 @@ def exec_lf(case) -> Soft:
                 okl2, l1 = s.call("rules/lnL", lambda: float(lf.lnL), allowed=gs_ok)
                 if okl and okl2 and not close(l1, l2):
                     s.fail(POISON_SIG if state["poisoned"] else "rules-roundtrip/lnL" + _prob_floor_tag(lf), f"{what}: lnL {l1!r} after export/import {l2!r}")
-                okn, (n1, n2) = s.call("rules/nfp", lambda: (lf.get_num_free_params(), f2.get_num_free_params()))
+                okn, nfp = s.call("rules/nfp", lambda: (lf.get_num_free_params(), f2.get_num_free_params()))
                 if okn:
-                    s.eq(n2, n1, "rules-roundtrip/num-free-params", what)
+                    s.eq(nfp[1], nfp[0], "rules-roundtrip/num-free-params", what)
             s.cls("rules-roundtrip")
         n_steps += 1
     s.nontrivial = n_steps >= 4 and change_after_block
@@ -811,7 +812,8 @@ def exec_calc(case) -> Soft:
             a, b = max(lo[i], 1e-4), min(hi[i], 2.5)
         v = a + frac * (b - a)
         if beyond:
-            v = hi[i] + 0.5 if frac > 0.5 else lo[i] - 0.5
+            # (not beyond an upper bound like rate_shape's default 1e10: the incomplete gamma series takes a minute there)
+            v = hi[i] + 0.5 if frac > 0.5 and hi[i] < 1e6 else lo[i] - 0.5
         return v
 
     for k, mv in enumerate(case["moves"]):
